@@ -14,6 +14,7 @@ EXTENDS Laurent, TLC, Json
 
 CONSTANTS PreOps,  \* TRUE: phases 1,2 are arithmetic pre-ops; FALSE: they are skipped
           InPlaceOps, \* TRUE: phase 4 may overwrite the first pairing result in place
+          SmallPool,  \* TRUE: reduced operand pools and a single second step (exhaustive pre-op x pairing sweep)
           CMax, DMax
 
 VARIABLES s, a, b, t, hist
@@ -50,7 +51,9 @@ Pair(P0, Q0)   == LET P == P0  Q == Q0 IN [x \in TAtoms |-> SMul(P[Left(x)], Q[R
 ScalarClasses == {SZero, SOne, Const(-1), U, SAdd(U, SOne), Mono(1, -1)}
 PointClasses  == {PZero, PBase, PAtomH, PMul(U, PBase), PAdd(PBase, PAtomH), PNeg(PBase)}
 
-Init == \E x \in ScalarClasses, P \in PointClasses, Q \in PointClasses :
+SPool == IF SmallPool THEN {Const(-1), U} ELSE ScalarClasses
+PPool == IF SmallPool THEN {PBase, PAtomH} ELSE PointClasses
+Init == \E x \in SPool, P \in PPool, Q \in PPool :
    /\ s = [s1 |-> x, s2 |-> Const(2)]
    /\ a = [a1 |-> P, a2 |-> PBase]
    /\ b = [b1 |-> Q, b2 |-> PAdd(PBase, PAtomH)]
@@ -115,7 +118,7 @@ Next ==
   CASE Len(hist) = 1 -> IF PreOps THEN PreA ELSE AStep("a.skip", "a2", "", "", a["a2"])
     [] Len(hist) = 2 -> IF PreOps THEN PreB ELSE BStep("b.skip", "b2", "", "", b["b2"])
     [] Len(hist) = 3 -> Pair1
-    [] Len(hist) = 4 -> Second
+    [] Len(hist) = 4 -> IF SmallPool THEN TStep("t.neg", "t2", "t1", "", TNeg(t["t1"])) ELSE Second
     [] Len(hist) = 5 -> IF InPlaceOps THEN InPlace ELSE TStep("t.skip", "t1", "", "", t["t1"])
     [] Len(hist) = 6 -> IF InPlaceOps THEN Third ELSE TStep("t.skip", "t2", "", "", t["t2"])
     [] Len(hist) = 7 -> Observe
